@@ -78,11 +78,11 @@ def uncontrolled_replay(backend, mode, model):
     n, B, Wk, close_at, taskfail = P['n'], P['buffer_size'], P['max_workers'], P['close_at'], P['taskfail']
     d = tempfile.mkdtemp(prefix='e2replay_', dir=os.environ.get('VERIF_WORK_PARENT', '/var/tmp'))
     try:
-        fn = _MarkerTask(d, taskfail, P.get('taskfail_base', False))
+        fn = _MarkerTask(d, taskfail, P.get('taskfail_kind', 2))
         delivered, end = [], 'return'
         t0 = time.time()
         try:
-            g = pu.lazy_parallel_map(fn, _source(n, P.get('fail_at', -1), P.get('fail_base', False)), buffer_size=B, max_workers=Wk, backend=backend)
+            g = pu.lazy_parallel_map(fn, _source(n, P.get('fail_at', -1), P.get('fail_kind', 2)), buffer_size=B, max_workers=Wk, backend=backend)
             for x in g:
                 delivered.append(x)
                 if len(delivered) == close_at:
@@ -104,20 +104,24 @@ def uncontrolled_replay(backend, mode, model):
             return ('observed' if bad else 'not-observed'), f'delivered {delivered} end={end}'
         if mode.startswith('src_error'):
             f = P['fail_at']
-            ok = delivered == list(range(f)) and end in ('MarkerError', 'MarkerBaseError')
+            ok = delivered == list(range(f)) and end == _marker_exc(P.get('fail_kind', 2)).__name__
             return ('not-observed' if ok else 'observed'), f'source failure at position {f}: delivered {delivered}, ended with {end}'
         if mode.startswith('error_position'):
-            ok = delivered == list(range(taskfail)) and end in ('UE', 'UB', 'MarkerError', 'MarkerBaseError')
+            ok = delivered == list(range(taskfail)) and end == _marker_exc(P.get('taskfail_kind', 2)).__name__
             return ('not-observed' if ok else 'observed'), f'delivered {delivered} end={end}'
         return 'uncontrolled', f'no timing-robust observer for {mode} on a process pool'
     finally:
         shutil.rmtree(d, ignore_errors=True)
 
 
-def _source(n, fail_at, fail_base):
+def _marker_exc(kind):
+    return {2: MarkerError, 3: MarkerBaseError, 5: MarkerQueueEmpty}[kind]
+
+
+def _source(n, fail_at, fail_kind):
     for i in range(n + 1):
         if i == fail_at:
-            raise (MarkerBaseError if fail_base else MarkerError)(i)
+            raise _marker_exc(fail_kind)(i)
         if i < n:
             yield i
 
@@ -130,16 +134,23 @@ class MarkerBaseError(BaseException):
     pass
 
 
+import queue as _queue
+
+
+class MarkerQueueEmpty(_queue.Empty):
+    pass
+
+
 class _MarkerTask:
     """picklable task: sleeps, writes marker files"""
 
-    def __init__(self, d, taskfail, base):
-        self.d, self.taskfail, self.base = d, taskfail, base
+    def __init__(self, d, taskfail, kind):
+        self.d, self.taskfail, self.kind = d, taskfail, kind
 
     def __call__(self, i):
         open(os.path.join(self.d, f'start{i}'), 'w').close()
         if i == self.taskfail:
-            raise (MarkerBaseError if self.base else MarkerError)(i)
+            raise _marker_exc(self.kind)(i)
         time.sleep(0.6)
         open(os.path.join(self.d, f'finish{i}'), 'w').close()
         return i
